@@ -13,6 +13,15 @@ and from _tls_verify(): its return statements as (guard, value):
   tls_verify_shape    : guard 1 = `preverify_ok == 1`, 2 = `!conn->certfail_handler`, 3 = `!tlscert`,
                         0 = final return; value 100 = the user handler's answer, else the literal
 
+  tls_verify_cert_accessor : which certificate _tls_verify converts for the user's handler: 1 =
+                        X509_STORE_CTX_get_current_cert(x509_ctx) (the one the error is about), 2 = get0_cert (always
+                        the leaf), 9 = anything else / not handed to the handler
+and from the callers of conn_tls_start (src/auth.c, src/conn.c), the calls made when it failed, in order:
+  tls_proceed_failure_calls : the `else` block of `if (conn_tls_start(conn) == 0)` in _handle_proceedtls_default
+  tls_legacy_failure_calls  : the block of `if (conn_tls_start(conn) != 0)` in conn_established
+  (1 xmpp_disconnect, 2 conn_disconnect, 3 _auth, 4 conn_open_stream, 5 conn_prepare_reset, 6 return, 9 other /
+   the branch is itself conditional; logging calls are skipped)
+
 guard codes: 0 unconditional (main flow of tls_new), 1 = if (conn->tls_trust), 2 = if (!conn->tls_trust) or the
 else branch of 1, 9 = anything else (makes Gen_tls_ok fail).  callback codes: 0 NULL, 1 _tls_verify, 9 other.
 """
@@ -213,6 +222,70 @@ def cb_code(e):
     return 9
 
 
+CALL_CODES = {"xmpp_disconnect": 1, "conn_disconnect": 2, "_auth": 3, "conn_open_stream": 4, "conn_prepare_reset": 5}
+LOGGING = {"strophe_debug", "strophe_error", "strophe_warn", "strophe_info", "strophe_debug_verbose", "UNUSED"}
+
+
+def block_after(text, pos):
+    """text[pos:] starts (after blanks) with `{`: return (inside, index after the closing brace)."""
+    i = pos
+    while i < len(text) and text[i].isspace():
+        i += 1
+    if i >= len(text) or text[i] != "{":
+        return None, i
+    d = 0
+    j = i
+    while j < len(text):
+        if text[j] == "{":
+            d += 1
+        elif text[j] == "}":
+            d -= 1
+            if d == 0:
+                return text[i + 1:j], j + 1
+        j += 1
+    return None, i
+
+
+def stmt_codes(block):
+    codes = []
+    for st in block.split(";"):
+        st = st.strip()
+        if not st:
+            continue
+        if st == "return" or st.startswith("return "):
+            codes.append(6)
+            continue
+        m = re.match(r"([A-Za-z_]\w*)\s*\(", st)
+        if m and m.group(1) in LOGGING:
+            continue
+        if m and m.group(1) in CALL_CODES and "{" not in st and not st.startswith("if"):
+            codes.append(CALL_CODES[m.group(1)])
+        else:
+            codes.append(9)
+    return codes
+
+
+def failure_reaction(rel, func_re, cond_re, in_else):
+    text = re.sub(r"\s+", " ", T.strip_comments(T.read_src(rel)))
+    body = func_body(text, func_re)
+    m = re.search(r"if \( ?" + cond_re + r" ?\)", body)
+    if not m:
+        return [9]
+    blk, end = block_after(body, m.end())
+    if blk is None:
+        return [9]
+    if not in_else:
+        return stmt_codes(blk)
+    rest = body[end:].lstrip()
+    if not rest.startswith("else"):
+        return []
+    rest = rest[4:]
+    if rest.lstrip().startswith("if"):
+        return [9]              # the failure branch is itself conditional
+    blk, _ = block_after(rest, 0)
+    return stmt_codes(blk) if blk is not None else [9]
+
+
 def generate():
     text = preprocess()
     body = func_body(text, r"tls_t \*\s*tls_new\s*\(\s*xmpp_conn_t \*\s*conn\s*\)")
@@ -294,7 +367,19 @@ def generate():
                 "!tlscert": 3, "": 0}.get(g, 9)
         shape.append((code, rv))
 
-    out = T.HEADER % "src/tls_openssl.c (through gcc -E)"
+    # which certificate reaches the user's handler
+    acc = 9
+    am = re.search(r"X509 \*\s*err_cert\s*=\s*(\w+)\s*\(\s*x509_ctx\s*\)", vbody)
+    conv = re.search(r"tlscert\s*=\s*_x509_to_tlscert\s*\(\s*conn->ctx\s*,\s*err_cert\s*\)", vbody) is not None
+    handed = re.search(r"conn->certfail_handler\s*\(\s*tlscert\s*,", vbody) is not None
+    if am and conv and handed and len(re.findall(r"\berr_cert\s*=", vbody)) == 1:
+        acc = {"X509_STORE_CTX_get_current_cert": 1, "X509_STORE_CTX_get0_cert": 2}.get(am.group(1), 9)
+    proceed = failure_reaction("src/auth.c", r"static int _handle_proceedtls_default\s*\([^)]*\)",
+                               r"conn_tls_start ?\( ?conn ?\) ?== ?0", True)
+    legacy = failure_reaction("src/conn.c", r"void conn_established\s*\(\s*xmpp_conn_t \*\s*conn\s*\)",
+                              r"conn_tls_start ?\( ?conn ?\) ?!= ?0", False)
+
+    out = T.HEADER % "src/tls_openssl.c (through gcc -E), src/auth.c, src/conn.c"
     out += "(* (guard, mode, callback) of every SSL_set_verify / SSL_CTX_set_verify call in tls_new, in order *)\n"
     out += "Definition tls_verify_calls : list (Z * Z * Z) := [%s].\n\n" % "; ".join("(%d, %d, %d)" % c for c in vcalls)
     out += "(* (guard, flags) of every host-flags call *)\n"
@@ -303,5 +388,10 @@ def generate():
     out += "Definition tls_host_calls : list (Z * Z) := [%s].\n\n" % "; ".join("(%d, %d)" % c for c in ncalls)
     out += "Definition tls_app_data_is_conn : bool := %s.\n\n" % ("true" if app else "false")
     out += "(* (guard, value) of every return statement of _tls_verify, in order *)\n"
-    out += "Definition tls_verify_shape : list (Z * Z) := [%s].\n" % "; ".join("(%d, %d)" % c for c in shape)
+    out += "Definition tls_verify_shape : list (Z * Z) := [%s].\n\n" % "; ".join("(%d, %d)" % c for c in shape)
+    out += "(* the certificate _tls_verify hands to the user's handler: 1 = X509_STORE_CTX_get_current_cert *)\n"
+    out += "Definition tls_verify_cert_accessor : Z := %d.\n\n" % acc
+    out += "(* what the callers do when conn_tls_start failed *)\n"
+    out += "Definition tls_proceed_failure_calls : list Z := [%s].\n" % "; ".join(str(c) for c in proceed)
+    out += "Definition tls_legacy_failure_calls : list Z := [%s].\n" % "; ".join(str(c) for c in legacy)
     return out
